@@ -240,6 +240,18 @@ func (dir *ufsDir) dotu(path string, d os.FileInfo, upool Users, sysMode *syscal
 	}
 }
 
+// ufsfid returns the file server's state of the fid a request names. A fid
+// has none while the Tattach or Twalk that creates it is still being
+// processed: a client that uses it that early gets an error.
+func ufsfid(req *SrvReq) *ufsFid {
+	fid, _ := req.Fid.Aux.(*ufsFid)
+	if fid == nil {
+		req.RespondError(Eunknownfid)
+	}
+
+	return fid
+}
+
 func (*Ufs) ConnOpened(conn *Conn) {
 	if conn.Srv.Debuglevel > 0 {
 		log.Println("connected")
@@ -292,7 +304,11 @@ func (ufs *Ufs) Attach(req *SrvReq) {
 func (*Ufs) Flush(req *SrvReq) {}
 
 func (*Ufs) Walk(req *SrvReq) {
-	fid := req.Fid.Aux.(*ufsFid)
+	fid := ufsfid(req)
+	if fid == nil {
+		return
+	}
+
 	tc := req.Tc
 
 	err := fid.stat()
@@ -330,7 +346,11 @@ func (*Ufs) Walk(req *SrvReq) {
 }
 
 func (*Ufs) Open(req *SrvReq) {
-	fid := req.Fid.Aux.(*ufsFid)
+	fid := ufsfid(req)
+	if fid == nil {
+		return
+	}
+
 	tc := req.Tc
 	err := fid.stat()
 	if err != nil {
@@ -349,7 +369,11 @@ func (*Ufs) Open(req *SrvReq) {
 }
 
 func (*Ufs) Create(req *SrvReq) {
-	fid := req.Fid.Aux.(*ufsFid)
+	fid := ufsfid(req)
+	if fid == nil {
+		return
+	}
+
 	tc := req.Tc
 	err := fid.stat()
 	if err != nil {
@@ -380,7 +404,11 @@ func (*Ufs) Create(req *SrvReq) {
 			return
 		}
 
-		e = os.Link(ofid.Aux.(*ufsFid).path, path)
+		if ofidaux, ok := ofid.Aux.(*ufsFid); ok && ofidaux != nil {
+			e = os.Link(ofidaux.path, path)
+		} else {
+			e = Eunknownfid
+		}
 		ofid.DecRef()
 
 	case tc.Perm&DMNAMEDPIPE != 0:
@@ -422,7 +450,11 @@ func (*Ufs) Create(req *SrvReq) {
 }
 
 func (*Ufs) Read(req *SrvReq) {
-	fid := req.Fid.Aux.(*ufsFid)
+	fid := ufsfid(req)
+	if fid == nil {
+		return
+	}
+
 	tc := req.Tc
 	rc := req.Rc
 	err := fid.stat()
@@ -510,7 +542,11 @@ func (*Ufs) Read(req *SrvReq) {
 }
 
 func (*Ufs) Write(req *SrvReq) {
-	fid := req.Fid.Aux.(*ufsFid)
+	fid := ufsfid(req)
+	if fid == nil {
+		return
+	}
+
 	tc := req.Tc
 	err := fid.stat()
 	if err != nil {
@@ -530,7 +566,11 @@ func (*Ufs) Write(req *SrvReq) {
 func (*Ufs) Clunk(req *SrvReq) { req.RespondRclunk() }
 
 func (*Ufs) Remove(req *SrvReq) {
-	fid := req.Fid.Aux.(*ufsFid)
+	fid := ufsfid(req)
+	if fid == nil {
+		return
+	}
+
 	err := fid.stat()
 	if err != nil {
 		req.RespondError(err)
@@ -547,7 +587,11 @@ func (*Ufs) Remove(req *SrvReq) {
 }
 
 func (*Ufs) Stat(req *SrvReq) {
-	fid := req.Fid.Aux.(*ufsFid)
+	fid := ufsfid(req)
+	if fid == nil {
+		return
+	}
+
 	err := fid.stat()
 	if err != nil {
 		req.RespondError(err)
@@ -583,7 +627,11 @@ func lookup(uid string, group bool) (uint32, *Error) {
 }
 
 func (u *Ufs) Wstat(req *SrvReq) {
-	fid := req.Fid.Aux.(*ufsFid)
+	fid := ufsfid(req)
+	if fid == nil {
+		return
+	}
+
 	err := fid.stat()
 	if err != nil {
 		req.RespondError(err)
